@@ -12,6 +12,11 @@ GROUPS = [
          drop_flags=["--signed-overflow-check"], flags=["--no-signed-overflow-check"]),
 ]
 
+NATIVE = [
+    dict(name="e2e_invariants", source="native/e2e_invariants.c", repo_sources="ALL_EXCEPT:", cflags=["-w", "-fsanitize=address"],
+         args={"quick": ["C03"], "thorough": ["C03"]}, exhaustive=False,
+         bound="end-to-end invariants of this property on ~12 real decodes (bundled en-us / fr-fr models; goforward recordings with JSGF grammar, FSG file and forced-alignment text; one call, 2048-sample blocks with partial results, float32; digital silence; white noise) under AddressSanitizer -- a safety net under the contracts, not a proof"),
+]
 ASSUMPTIONS = [
     "history table seen through the ghost-cell view (assumed accessor contract, element invariant as in C01)",
     "frame monotonicity entry(pred).frame <= entry.frame and the score range [-0x30000000, 0x30000000] are preconditions of fsg_seg_bp2itor (producer-side invariants, not proved here)",
@@ -26,5 +31,5 @@ HAND_LEMMAS = [
 NOT_COVERED = ["fsg_search_seg_iter backtrace loop (order of hist[])", "decoder_end_utt's final forward", "hypothesis string vs. segment words", "front-end frame count (C06)"]
 CLAIM = dict(
     text="fsg_seg_bp2itor, the function that turns one history entry into a segment, is proved for all entries (loop-free, full domain): ef is the entry's frame, sf is the frame after its predecessor's (a zero-length marker for null arcs), lscr is the shifted arc probability and ascr + lscr equals the path-score difference to the predecessor. Frame counters: search_module_forward is proved (loop invariant + termination) to search every queued frame exactly once, in order, advancing the decoder's frame count by the number it returns; decoder_process_int16 and decoder_process_float32 are proved to return the total searched over all their internal rounds. Tiling and score additivity of a whole segmentation follow by two hand lemmas (induction along the backtrace).",
-    note="assumed: ghost-cell history view, frame monotonicity and score range as preconditions, acmod_process_raw; hand lemmas for tiling/telescoping; float32 entry point and seg_iter loop not covered",
-    technique="CBMC function + loop contracts enforced with goto-instrument --dfcc, callees replaced by contracts, ghost counters")
+    note="assumed: ghost-cell history view, frame monotonicity and score range as preconditions, acmod_process_raw; hand lemmas for tiling/telescoping; float32 entry point and seg_iter loop not covered; end-to-end invariants on ~12 real decodes by a bounded native run (native/e2e_invariants.c), never counted as proved",
+    technique="CBMC function + loop contracts enforced with goto-instrument --dfcc, callees replaced by contracts, ghost counters; plus a bounded native run of the property's end-to-end invariants on real decodes (safety net, not proof)")
